@@ -46,6 +46,14 @@ func cmdNetHostile(args []string) int {
 			return 2
 		}
 	}
+	for i := range sc.Hs {
+		fmt.Fprintf(os.Stderr, "LIVE %d handshake message %s %d %s %d\n", sc.Hs[i].ID, sc.Hs[i].Dir, sc.Hs[i].Msg, sc.Hs[i].Mut, sc.Hs[i].Arg)
+		bw.Flush()
+		if err := r.RunHs(&sc.Hs[i]); err != nil {
+			fmt.Fprintln(os.Stderr, "handshake case", sc.Hs[i].ID, ":", err)
+			return 2
+		}
+	}
 	fmt.Printf("{\"cases\":%d}\n", r.Cases)
 	return 0
 }
